@@ -771,6 +771,16 @@ func (be BlockExpr) Coq(needs_paren bool) string {
 	return addParens(needs_paren, pp.Build())
 }
 
+// ParenExpr is an expression that is always printed in parentheses
+// (used to delimit the scope of the bindings of a nested block).
+type ParenExpr struct {
+	X Expr
+}
+
+func (e ParenExpr) Coq(needs_paren bool) string {
+	return e.X.Coq(true)
+}
+
 type DerefExpr struct {
 	X  Expr
 	Ty Expr
